@@ -31,8 +31,9 @@ ASSUMPTIONS = [
     "statement), so the code's string order of columns coincides with numeric order",
     "elements are compared by value (str(x), float(x)): numpy scalars in the returned lists are accepted",
     "one group per column is demanded (a partition BY column); empty groups are not judged",
-    "an invalid mode name with an EMPTY triple list is counted, not judged (statement silent); "
-    "'auto' passed directly to partition_by_column is counted, not judged",
+    "partition_by_column knows two modes, 'source' and 'destination' (its documentation); 'auto' is resolved by "
+    "optimize_partition_by beforehand and is, passed directly to partition_by_column, one of the 'other mode names' "
+    "- with any list of triples, the empty one included",
     "lists of unequal length, NaN / negative volumes are not generated",
     "is-a-trough is taken from how the harness built the object (robotools.Trough vs robotools.Labware)",
 ]
@@ -200,10 +201,9 @@ def judge_partition(ctx, s, d, v, pb, out, exc, where):
     )
     if not (isinstance(pb, str) and pb in VALID):
         if pb == "auto":
-            ctx.count("auto_passed_to_partition_by_column(not judged)")
-        else:
-            ctx.count("invalid_mode")
-            ctx.check("invalid_mode_raises", exc is not None, det)
+            ctx.count("auto_passed_to_partition_by_column")
+        ctx.count("invalid_mode")
+        ctx.check("invalid_mode_raises", exc is not None, det)
         return
     ctx.count("mode:" + pb)
     ctx.count(where + ":valid_calls")
